@@ -23,6 +23,7 @@ anonymous bundles, pairs and the composition across hierarchy (rest of F2, F3 of
 import Hdl21Model.Lemmas.Resolve
 import Hdl21Model.Lemmas.Export
 import Hdl21Model.Lemmas.PortRefs
+import Hdl21Model.Props.C03
 namespace Hdl21.Props.C01
 open Hdl21 Hdl21.Pkg
 
@@ -74,6 +75,46 @@ example :
                  | .ok t => some (readTarget [("a", 2), ("b", 3)] t)
                  | .error _ => none)
      | .error _ => none) = some [("b", 2), ("b", 0), ("a", 0)] := by decide +kernel
+
+/-! ## Arrays: per-element wiring (`ArrayFlattener`: element `k` gets `conn[k*w : (k+1)*w]`) -/
+
+/-- Element `k` of an instance array whose port of width `w` is wired per element to a connection of `n * w` bits
+    receives exactly the bits `k*w … (k+1)*w - 1` of that connection, in order: bit `j` of the element's port is bit
+    `k*w + j` of the connection. -/
+theorem array_element_bits (c : SConn) (bs : List Bit) (n w k : Nat) (hd : c.denote = .ok bs) (hlen : bs.length = n * w)
+    (hk : k < n) (hw : 0 < w) :
+    ∃ es, (SConn.slice c (.range (some ((k * w : Nat) : Int)) (some (((k + 1) * w : Nat) : Int)) none)).denote = .ok es ∧
+      es.length = w ∧ ∀ j, j < w → es[j]? = bs[k * w + j]? := by
+  have hab : k * w < (k + 1) * w := by rw [Nat.succ_mul]; omega
+  have hb : (k + 1) * w ≤ bs.length := by rw [hlen]; exact Nat.mul_le_mul_right w hk
+  have hpy := Hdl21.Props.C03.pyBits_simple bs.length (k * w) ((k + 1) * w) hab hb
+  have hsub : (k + 1) * w - k * w = w := by rw [Nat.succ_mul]; omega
+  rw [hsub] at hpy
+  have hne : (List.range w).map (fun (j : Nat) => ((k * w : Nat) : Int) + j) ≠ [] := by
+    cases w with
+    | zero => omega
+    | succ w' => simp [List.range_succ]
+  obtain ⟨s, hs, hbits, _⟩ := Hdl21.Props.C03.range_unit_accept bs.length _ _ none (Or.inl rfl) _ hpy hne
+  have hin : ∀ x ∈ s.bits, 0 ≤ x ∧ x < bs.length := by
+    intro x hx
+    rw [hbits] at hx
+    obtain ⟨j, hj, rfl⟩ := List.mem_map.mp hx
+    have := List.mem_range.mp hj
+    constructor <;> omega
+  obtain ⟨es, hes⟩ := pick_ok bs s.bits hin
+  refine ⟨es, ?_, ?_, ?_⟩
+  · simp only [SConn.denote, hd]
+    show (do let inner ← sliceInner bs.length _; pick bs inner.bits) = _
+    rw [hs]
+    exact hes
+  · have := pick_length bs s.bits es hes
+    rw [this, hbits]; simp
+  · intro j hj
+    have hkj : s.bits[j]? = some (((k * w : Nat) : Int) + (j : Nat)) := by
+      rw [hbits, List.getElem?_map, List.getElem?_range hj]; rfl
+    obtain ⟨_, h2, _⟩ := pick_getElem bs s.bits es hes j _ hkj
+    rw [h2]
+    congr 1
 
 /-! ## F2: port references and no-connects -/
 section F2
@@ -148,7 +189,7 @@ theorem portrefs_preserve_connectivity (m : Mod) (wf : WF m) (r : Port → Nat)
         exact halone p₂ (reach_symm wf hr₂)
 
 /-- The signals invented for groups without a declared signal are none of the designer's. -/
-theorem invented_signals_are_fresh (m : Mod) (wf : WF m) (p : Port) (v : Nat) (h : resolvePort m p = some v) :
+theorem invented_signals_are_fresh (m : Mod) (p : Port) (v : Nat) (h : resolvePort m p = some v) :
     v < m.nsig → ∃ x, Reach (nbrs m) p x ∧ look m x = some (.sig v) := by
   intro hv
   cases resolve_basis h with
